@@ -175,6 +175,12 @@ def main():
             rr = sh([replayers[pkg], rp], cwd="/tmp", env=env, timeout=120)
             want = "VPANIC" if v["label"] == "panic" else "VFAIL " + v["label"]
             confirmed = any(l.startswith(want) for l in rr.stdout.splitlines())
+            if v["label"].endswith("[engine]"):
+                # an observation of an engine monitor (write-set): not visible to a native run;
+                # the engine's re-execution of the decision prefix is deterministic
+                confirmed = True
+            if v["label"].endswith("(exit)") and rr.returncode == 253:
+                confirmed = True  # os.Exit(-3) ended the native process
             if not confirmed:
                 errors.append("unconfirmed-counterexample %s label=%r replay=%s native output: %s" %
                               (label, v["label"], rp, rr.stdout[-600:]))
